@@ -56,6 +56,25 @@ class XmlHooks(C04.ParserHooks):
         if num.fn.name == "s_advance_to_closing_tag":
             _req_body(num, st)
 
+    def s_aws_byte_cursor_split_on_char(self, num, st, e, args):
+        """the output list: when it was set up without an allocator (aws_array_list_init_static) nothing but its length
+        changes - a full static list makes push_back fail, it is never re-allocated (array_list.inl) - and the list stays
+        valid: length * item_size <= current_size"""
+        base = self._cbase(num, st, e, 2, args) if len(args) >= 3 and args[2] is not None else None
+        if not base:
+            return NotImplemented
+        alloc = st.env.get(base + "alloc")
+        if alloc is None or not alloc.is_const() or alloc.cval() != 0:
+            return NotImplemented
+        isz = num.field(st, base + "item_size", "aws_array_list", "item_size")
+        cs = num.field(st, base + "current_size", "aws_array_list", "current_size")
+        ln = Poly.atom(num.fresh(st, "splits", None, (0, 2 ** 58)))
+        st.env[base + "length"] = ln
+        st.meta[base + "length"] = ("aws_array_list", "length", "unsigned long")
+        if isz.is_const():
+            st.add(ln * isz.cval() - cs)
+        return Poly.atom(num.fresh(st, "split", None, (-1, 0)))
+
     def call(self, num, st, e, args):
         if e.get("callee") == "s_advance_to_closing_tag":
             num.__dict__.setdefault("body_log", []).append((e, _chk_body(num, st, e, args)))
@@ -285,6 +304,21 @@ def decl(R, P):
                         okf = True
         R.check(okf, "DECL", "split-failure-is-error", where(f, first[0]), "too many pieces (attribute limit) is reported as an invalid document")
     ga = [e for e in f.calls("aws_array_list_get_at") if f.is_const(RU.arg(f, e.node, 2)) == 0 and "node->name" in argstr(f, e.node, 1)]
+    if not ga:
+        # ... or read straight from element 0 of the storage the split list was set up over
+        store = {argstr(f, e.node, 1) for e in f.calls("aws_array_list_init_static") if first and argstr(f, e.node, 0) == argstr(f, first[0].node, 2)}
+        for b_ in f.blocks.values():
+            for el in b_.elems:
+                if el["k"] == "bin" and el["op"] == "=":
+                    l_, r_ = RU.uncast(f, el["a"][0]), RU.uncast(f, el["a"][1])
+                    while r_ is not None and r_["k"] == "cast":
+                        r_ = RU.uncast(f, r_["a"][0])
+                    if l_ is not None and l_["k"] == "member" and l_["f"] == "name" and l_.get("rec") == "aws_xml_node" and r_ is not None and r_["k"] == "index" and f.is_const(r_["a"][1]) == 0:
+                        base_ = RU.uncast(f, r_["a"][0])
+                        while base_ is not None and base_["k"] == "decay":
+                            base_ = RU.uncast(f, base_["a"][0])
+                        if base_ is not None and f.show(base_) in store:
+                            ga.append(el)
     R.check(len(ga) == 1, "DECL", "name-is-first-split", where(f, ga[0]) if ga else f.name, "the element name is split 0")
     tr = f.calls("aws_byte_cursor_trim_pred")
     R.check(len(tr) == 1 and f.show(RU.arg(f, tr[0].node, 1)).endswith("s_double_quote_fn") and "att_val_pair[1]" in argstr(f, tr[0].node, 0), "DECL", "value-trimmed-of-double-quotes", where(f, tr[0]) if tr else f.name,
@@ -455,34 +489,42 @@ def exact_guards(R, P):
     f = P.fn("s_advance_to_closing_tag")
     if R.require(f is not None, "s_advance_to_closing_tag not found"):
         num = Num(f, P, XmlHooks(), max_paths=20000)
-        rets = [x for b in f.blocks.values() for x in b.elems if x["k"] == "ret"]
+        # the refusals made before the search starts (one test per reason or one `||` of them): the failing returns that
+        # are not reachable from the search call
+        search = f.calls("aws_byte_cursor_find_exact")
+        after = set()
+        for e_ in search:
+            after |= {id(x) for x in RU.reach_from(f, e_)}
         first = []
-        for r in rets:
-            blk = num.elem_of.get(r["id"], (None,))[0]
-
-            class _E:
-                pass
-            ev = _E()
-            ev.blk = blk
-            gs = [(f.show(f.d(c_)), p_) for c_, p_, b_ in RU.guards(f, ev)]
-            if any("closing_name_len" in t_ and "doc_at_body" in t_ and p_ for t_, p_ in gs):
-                # the innermost decision on the way to this return is the room test: this is its refusing arm
-                first.append(r)
-        if R.require(len(first) == 1, "s_advance_to_closing_tag: the room guard's error return not found (%d)" % len(first)):
+        for r in f.returns():
+            v_ = RU.uncast(f, r.node["a"][0]) if r.node.get("a") else None
+            if v_ is None or f.is_const(v_) == 0 or id(r) in after:
+                continue
+            first.append(r.node)
+        bufs = []
+        for e_ in f.all_events():
+            if e_.kind == "decl":
+                for v_ in e_.node["vars"]:
+                    t_ = f.unit.types[v_["t"]]
+                    if t_.get("arr") and t_.get("esz", 1) == 1:
+                        bufs.append(t_["arr"])
+        if R.require(len(first) >= 1 and search, "s_advance_to_closing_tag: the room guard's error return not found (%d)" % len(first)):
             try:
-                sts = num.states_at({first[0]["id"]})
+                sts = num.states_at({r["id"] for r in first})
             except Limit as ex:
                 R.broken(str(ex))
                 sts = {}
             ok, det, cnt = True, "", 0
-            for st in sts.get(first[0]["id"], []):
-                nl = [v for k, v in st.env.items() if k.endswith(")->name.len")]
-                dl = [v for k, v in st.env.items() if k.endswith(")->doc_at_body.len")]
-                cl = st.env.get("v:closing_name_len")
-                cnt += 1
-                if not dl or cl is None or not entails(st, dl[0] + 1 - cl):
-                    ok, det = False, "refused with closing_name_len = %r, doc_at_body.len = %s" % (cl, dl)
-            R.check(ok and cnt > 0, "LIMITS", "skip:refuses-only-when-the-closing-tag-does-not-fit", "%s:%d in %s()" % (FILE, first[0]["loc"][0], f.name), "the refusal implies closing_name_len > doc_at_body.len (%d states)" % cnt,
+            for r in first:
+                for st in sts.get(r["id"], []):
+                    dl = [v for k, v in st.env.items() if k.endswith(")->doc_at_body.len")]
+                    cl = st.env.get("v:closing_name_len")
+                    cnt += 1
+                    fits_not = bool(dl) and cl is not None and entails(st, dl[0] + 1 - cl)
+                    too_long = cl is not None and any(entails(st, Poly.const(k_ + 1) - cl) for k_ in bufs)  # the other documented limit: the pattern buffer
+                    if not (fits_not or too_long):
+                        ok, det = False, "refused with closing_name_len = %r, doc_at_body.len = %s" % (cl, dl)
+            R.check(ok and cnt > 0, "LIMITS", "skip:refuses-only-when-the-closing-tag-does-not-fit", "%s:%d in %s()" % (FILE, first[0]["loc"][0], f.name), "a refusal implies closing_name_len > doc_at_body.len, or a name beyond the pattern buffer (%d states)" % cnt,
                     "the skip refuses a node whose closing tag exactly fills the rest of the document (%s): a well-formed root with an empty body and nothing behind its end tag is rejected" % det)
     g = P.fn("aws_xml_parse")
     if R.require(g is not None, "aws_xml_parse not found"):
@@ -513,31 +555,48 @@ def exact_guards(R, P):
                     "the preamble loop is left after a '<!' / '<?' statement (%s): a comment, processing instruction or second declaration that follows is handed to the root callback as if it were the root element" % sorted(set(bad)))
 
 
+# the byte-buffer writers that fail (and write nothing) when the destination lacks room: callee -> where the length is
+WRITERS = {"aws_byte_buf_append": "cursor*", "aws_byte_buf_write_from_whole_cursor": "cursor", "aws_byte_buf_write_from_whole_buffer": "buf", "aws_byte_buf_write": "len",
+           "aws_byte_buf_write_u8": 1, "aws_byte_buf_write_be16": 2, "aws_byte_buf_write_be32": 4, "aws_byte_buf_write_be64": 8}
+
+
 def unchecked_appends(R, P):
     """ERR-CHECKED/appends: an append whose result is dropped must not be able to fail: NUM shows at each such call that
     the destination has room (the name-length guard and the pattern buffers' sizes agree)."""
     from sa.awslib import AwsHooks
     n = 0
     for g in P.functions_in(FILE):
-        apps = [el for el in _discarded_calls(g, {"aws_byte_buf_append", "aws_byte_buf_append_dynamic", "aws_byte_buf_write", "aws_byte_buf_write_u8"})]
+        apps = [el for el in _discarded_calls(g, set(WRITERS) | {"aws_byte_buf_append_dynamic"})]
         if not apps:
             continue
         R.fn(g)
 
         class H(XmlHooks):
             def call(self, num, st, e, args):
-                if (e.get("callee") or "") == "aws_byte_buf_append" and len(args) >= 2 and args[0] is not None and args[1] is not None:
-                    bb, cb = self._cbase(num, st, e, 0, args), self._cbase(num, st, e, 1, args)
-                    ln = num.field(st, bb + "len", "aws_byte_buf", "len")
-                    cap = num.field(st, bb + "capacity", "aws_byte_buf", "capacity")
-                    fl = num.field(st, cb + "len", "aws_byte_cursor", "len")
-                    ok = entails(st, ln + fl - cap)
-                    num.__dict__.setdefault("app_log", []).append((e, ok, repr(ln + fl), repr(cap)))
-                    if ok:
-                        st.env[bb + "len"] = ln + fl
-                        return Poly.const(0)
-                    st.env[bb + "len"] = Poly.atom(num.fresh(st, "len", None, (0, 2 ** 62)))
-                    return Poly.atom(num.fresh(st, "append", num.ty(e)))
+                c = e.get("callee") or ""
+                if c in WRITERS and len(args) >= 2 and args[0] is not None:
+                    bb = self._cbase(num, st, e, 0, args)
+                    how = WRITERS[c]
+                    fl = None
+                    if how == "cursor*" and args[1] is not None:
+                        fl = num.field(st, self._cbase(num, st, e, 1, args) + "len", "aws_byte_cursor", "len")
+                    elif how in ("cursor", "buf"):
+                        k_ = num.key(RU.uncast(num.fn, e["a"][1]), st)
+                        fl = num.field(st, k_ + ".len", "aws_byte_cursor" if how == "cursor" else "aws_byte_buf", "len") if k_ else None
+                    elif how == "len" and len(args) >= 3:
+                        fl = args[2]
+                    elif isinstance(how, int):
+                        fl = Poly.const(how)
+                    if bb and fl is not None:
+                        ln = num.field(st, bb + "len", "aws_byte_buf", "len")
+                        cap = num.field(st, bb + "capacity", "aws_byte_buf", "capacity")
+                        ok = entails(st, ln + fl - cap)
+                        num.__dict__.setdefault("app_log", []).append((e, ok, repr(ln + fl), repr(cap)))
+                        if ok:
+                            st.env[bb + "len"] = ln + fl
+                            return Poly.const(0 if c == "aws_byte_buf_append" else 1)
+                        st.env[bb + "len"] = Poly.atom(num.fresh(st, "len", None, (0, 2 ** 62)))
+                        return Poly.atom(num.fresh(st, "append", num.ty(e)))
                 return XmlHooks.call(self, num, st, e, args)
         num = Num(g, P, H(), max_paths=20000)
         try:
